@@ -9,7 +9,8 @@
 (*   Begin      remember the design space's integer-normalisation flag,    *)
 (*              switch it on (integer variables are then scaled like the   *)
 (*              others by untransform_vect)                                *)
-(*   Refuse     execute() validates the settings BEFORE anything else      *)
+(*   Refuse     execute() validates the settings and the algorithm's       *)
+(*              minimum dimension BEFORE anything else                     *)
 (*   EarlyReject compute_doe() validates the settings after Begin          *)
 (*   Sample     Seeder.get_seed (default seed += 1 on EVERY consultation;  *)
 (*              a given seed wins) then the OPAQUE sampler: any matrix of  *)
@@ -27,6 +28,10 @@
 (* values are j/G (integer j), sample values are integers in units 1/(S*G):*)
 (* on this dyadic slice the IEEE arithmetic of untransform_vect is exact.  *)
 (*                                                                         *)
+(* For the designs that gemseo's own wrapper code builds or rescales       *)
+(* (diagonal, full factorial, axial/factorial/composite, 2- and 3-level    *)
+(* pyDOE designs) the unit samples are not opaque: StructureOK.            *)
+(*                                                                         *)
 (* The actions carry their nondeterministic choices as parameters so that  *)
 (* DOETrace.tla re-uses them with the values logged from real runs.        *)
 (***************************************************************************)
@@ -34,7 +39,7 @@ EXTENDS Integers, Sequences, FiniteSets, TLC
 
 CONSTANTS G,          \* unit grid denominator
           S,          \* bound scale denominator
-          SpaceId,    \* index in Catalogue of the design space of this run
+          SpaceIds,   \* indices in Catalogue of the design spaces of this run (one per behaviour)
           Insts,      \* library instances (one Seeder each)
           Apis,       \* subset of {"compute", "execute"}
           Fams,       \* algorithm families explored
@@ -81,12 +86,13 @@ Dim == Len(sp)
 (*  n : n_samples (0 for the families that take none)                       *)
 (*  p : the one extra integer setting that matters for the size             *)
 (*      (bb: centre points, cc: sum of the two centre counts,               *)
-(*       sobolidx: 1 iff eval_second_order, custom: number of rows given)   *)
+(*       sobolidx: 1 iff eval_second_order, custom: number of rows given,   *)
+(*       morris / oat: 1 iff the relative step exceeds 1/2)                 *)
 NFams == {"exact", "exact2", "atmost", "diag", "fullfact", "axial", "factorial",
           "composite", "morris", "sobolidx"}
 ZFams == {"bb", "cc", "ff2n", "pb", "custom", "oat"}
 AllFams == NFams \cup ZFams
-PFams == {"bb", "cc", "sobolidx", "custom"}     \* families whose size depends on the extra setting p
+PFams == {"bb", "cc", "sobolidx", "custom", "morris", "oat"}     \* families with an extra setting p
 \* families named by the quantifier of C14 ("designed to fill the domain")
 QFams == {"exact", "exact2", "diag", "fullfact", "axial", "factorial", "composite",
           "morris", "custom"}
@@ -110,6 +116,11 @@ Accepts(f, n, d, p) ==
     [] f = "bb" -> d >= 3          \* pyDOE3: "Number of variables must be at least 3"
     [] f = "cc" -> d >= 2
     [] OTHER    -> TRUE
+
+\* A one-at-a-time step larger than half the range cannot be honoured inside the bounds (from x in
+\* ]1-step, step[ both x+step and x-step leave the cube): such a setting MAY be rejected; if it is
+\* accepted the samples must still be in the cube.
+MayReject(f, p) == f \in {"morris", "oat"} /\ p = 1
 
 \* execute() refuses before touching the design space: invalid settings (pydantic), or a design space
 \* smaller than the algorithm's documented minimum_dimension (PYDOE_BBDESIGN 3, PYDOE_CCDESIGN 2)
@@ -157,6 +168,50 @@ SamplesOK(space, u, X, fl) ==
 InBoundsCell(c, x) == c.lb * G <= x /\ x <= c.ub * G
 IntegralCell(c, x) == c.int => x % U = 0
 
+----------------------------------------------------------------------------
+(* STRUCTURE of the designs whose unit samples are built or rescaled by      *)
+(* gemseo's own wrapper code (not by the opaque library), for unit samples  *)
+(* on the grid:                                                             *)
+(*  diag      DiagonalDOE: column k is linspace(0, 1, n) or its reverse      *)
+(*  fullfact  levels j/(L-1) (0.5 when L = 1), all L^d combinations          *)
+(*  axial / factorial / composite with n_samples: centre 0.5, levels k/L of  *)
+(*            the half-range, level 1 on the faces of the cube               *)
+(*            (base_ot_stratified_doe.py: centring + scaling)                *)
+(*  ff2n, pb  two-level designs rescaled from {-1, 1} to {0, 1};             *)
+(*  bb        three-level design rescaled to {0, 1/2, 1} (PyDOELibrary.__scale) *)
+Off(v) == Abs(2 * v - G)                       \* twice the distance to the centre of the cube
+OnLevel(v, L) == \E m \in 0..L : Off(v) * L = G * m
+RowsDistinct(u) == \A r1, r2 \in 1..Len(u) : r1 # r2 => u[r1] # u[r2]
+Cells(u) == {<<r, k>> : r \in 1..Len(u), k \in 1..(IF Len(u) = 0 THEN 0 ELSE Len(u[1]))}
+DiagOK(u, n) ==
+  \A k \in 1..(IF Len(u) = 0 THEN 0 ELSE Len(u[1])) :
+     \/ \A r \in 1..Len(u) : u[r][k] * (n - 1) = (r - 1) * G
+     \/ \A r \in 1..Len(u) : u[r][k] * (n - 1) = (n - r) * G
+FullFactOK(u, L) ==
+  /\ \A c \in Cells(u) : IF L = 1 THEN 2 * u[c[1]][c[2]] = G ELSE (u[c[1]][c[2]] * (L - 1)) % G = 0
+  /\ RowsDistinct(u)
+NOff(row) == Cardinality({k \in 1..Len(row) : Off(row[k]) # 0})
+SameOff(row) == \A k1, k2 \in 1..Len(row) : Off(row[k1]) = Off(row[k2])
+StratOK(f, u, L) ==
+  /\ \A c \in Cells(u) : OnLevel(u[c[1]][c[2]], L)
+  /\ \E c \in Cells(u) : Off(u[c[1]][c[2]]) = G
+  /\ \E r \in 1..Len(u) : NOff(u[r]) = 0
+  /\ \A r \in 1..Len(u) :
+       LET row == u[r]
+       IN  CASE f = "axial"     -> NOff(row) <= 1
+             [] f = "factorial" -> NOff(row) = 0 \/ (NOff(row) = Len(row) /\ SameOff(row))
+             [] OTHER           -> NOff(row) <= 1 \/ (NOff(row) = Len(row) /\ SameOff(row))
+  /\ (f # "composite" \/ Len(u[1]) >= 2 => RowsDistinct(u))     \* (composite, d = 1: axial = factorial points)
+ValuesIn(u, vals) == \A c \in Cells(u) : u[c[1]][c[2]] \in vals
+StructureOK(f, n, d, p, u) ==
+  CASE f = "diag"     -> DiagOK(u, n)
+    [] f = "fullfact" -> FullFactOK(u, Levels(f, n, d, p))
+    [] f \in {"axial", "factorial", "composite"} -> StratOK(f, u, Levels(f, n, d, p))
+    [] f = "ff2n"     -> ValuesIn(u, {0, G}) /\ RowsDistinct(u)
+    [] f = "pb"       -> ValuesIn(u, {0, G})
+    [] f = "bb"       -> ValuesIn(u, {0, G \div 2, G})
+    [] OTHER          -> TRUE
+
 RECURSIVE DedupR(_, _, _)
 DedupR(s, i, acc) == IF i > Len(s) THEN acc
                      ELSE DedupR(s, i + 1, IF \E k \in 1..Len(acc) : acc[k] = s[i] THEN acc ELSE Append(acc, s[i]))
@@ -172,7 +227,7 @@ NoCall == [inst |-> CHOOSE i \in Insts : TRUE, api |-> "compute", fam |-> "exact
 
 Init == /\ dflt = [i \in Insts |-> 0]
         /\ flag \in BOOLEAN
-        /\ sp = Catalogue[SpaceId]
+        /\ sp \in {Catalogue[i] : i \in SpaceIds}
         /\ pc = "idle"
         /\ cur = NoCall
         /\ memo = <<>>
@@ -196,7 +251,7 @@ Begin(i, api, f, n, p, sd, s, inj) ==
 \* execute(): invalid settings / too small a dimension are refused before the design space is touched
 Refuse(i, api, f, n, p, sd, s) ==
   /\ pc \in {"idle", "done"}
-  /\ api = "execute" /\ ExecRefuses(f, n, Dim, p)
+  /\ api = "execute" /\ (ExecRefuses(f, n, Dim, p) \/ MayReject(f, p))
   /\ cur' = NewCall(i, api, f, n, p, sd, s, FALSE)
   /\ pc' = "done"
   /\ ncalls' = ncalls + 1
@@ -204,7 +259,7 @@ Refuse(i, api, f, n, p, sd, s) ==
 
 \* compute_doe(): the settings are validated after the flag has been switched on
 EarlyReject ==
-  /\ pc = "begun" /\ ~SettingsValid(cur.fam, cur.n, cur.p)
+  /\ pc = "begun" /\ (~SettingsValid(cur.fam, cur.n, cur.p) \/ MayReject(cur.fam, cur.p))
   /\ pc' = "failed"
   /\ UNCHANGED <<dflt, flag, sp, cur, memo, ncalls>>
 
@@ -218,7 +273,10 @@ Sample(calls, cnt, u, uTok, opq) ==
   /\ SettingsValid(cur.fam, cur.n, cur.p) /\ Accepts(cur.fam, cur.n, Dim, cur.p) /\ ~cur.inj
   /\ calls \in {0, 1}
   /\ CountOK(cur.fam, cur.n, Dim, cur.p, cnt)
-  /\ IF opq THEN u = <<>> ELSE (Shape(u, cnt, Dim) /\ UnitCube(u))
+  \* ("= TRUE": evaluated as a state function; TLC would otherwise unfold the large quantifiers of an
+  \*  action conjunct recursively)
+  /\ (IF opq THEN u = <<>>
+      ELSE (Shape(u, cnt, Dim) /\ UnitCube(u) /\ StructureOK(cur.fam, cur.n, Dim, cur.p, u))) = TRUE
   /\ LET c2 == [SeederStep(calls) EXCEPT !.cnt = cnt, !.unit = u, !.utok = uTok, !.opq = opq]
      IN  /\ (Key(c2) \in DOMAIN memo => memo[Key(c2)].u = uTok)     \* the sampler is a function
          /\ cur' = c2
@@ -238,7 +296,7 @@ SampleFail(calls) ==
 
 Finish(X, xTok) ==
   /\ pc = "sampled"
-  /\ IF cur.opq THEN X = <<>> ELSE SamplesOK(sp, cur.unit, X, flag)
+  /\ (IF cur.opq THEN X = <<>> ELSE SamplesOK(sp, cur.unit, X, flag)) = TRUE
   /\ (Key(cur) \in DOMAIN memo => memo[Key(cur)].x = xTok)
   /\ memo' = IF Key(cur) \in DOMAIN memo THEN memo
              ELSE memo @@ (Key(cur) :> [u |-> cur.utok, x |-> xTok])
@@ -304,12 +362,14 @@ CountRule == DoneOK => /\ Len(cur.x) = cur.cnt
                        /\ cur.cnt >= 1
 RejectRule == Done /\ ~cur.ok => \/ ~SettingsValid(cur.fam, cur.n, cur.p)
                                  \/ ~Accepts(cur.fam, cur.n, Dim, cur.p)
+                                 \/ MayReject(cur.fam, cur.p)
                                  \/ cur.inj
 SeedRule == pc \in {"sampled", "failed", "done"} =>
               /\ dflt[cur.inst] = cur.d0 + cur.calls
               /\ (cur.calls = 1 => cur.used = IF cur.seeded THEN cur.seed ELSE cur.d0 + 1)
 \* equal (family, n, settings, seed used) => equal unit samples and samples, whatever the
 \* instance and its seeder history
+Structure == DoneOK /\ ~cur.opq => StructureOK(cur.fam, cur.n, Dim, cur.p, cur.unit)
 Deterministic == DoneOK => /\ Key(cur) \in DOMAIN memo
                            /\ memo[Key(cur)].u = cur.utok
                            /\ memo[Key(cur)].x = cur.xtok
